@@ -8,6 +8,24 @@ TRUST = ('trusted: CBMC 6.11 front end/symex + MiniSat/z3, the reference oracle 
          'the unionfix rewrite of the symbolically executed snapshot (differentially tested each build); bounds are stated per family in the evidence file')
 
 CHECKS = {
+    'C03': ('model_checking', 'DESIGN.md C03',
+            'IL class/definition rules asserted by an IL semantics on everything the back end lowers (operators, conversions, switch ladders, automatic initialisation), '
+            'all builder call sequences up to the bound keep blocks well-terminated, data definitions have exactly the object size, jumps to undefined/duplicate labels are diagnosed.'),
+    'C09': ('model_checking', 'DESIGN.md C09',
+            'declcommon/getlinkage as a step function over a fully symbolic tuple (kind, storage class, scope, visible prior declaration state, assembler labels) '
+            'against a transcription of C11 6.2.2p3-7 and the redeclaration constraints.'),
+    'C10': ('model_checking', 'DESIGN.md C10',
+            'A catalogue of ~100 violating templates (token skeleton concrete) run through the real decl/stmt/expr code under CBMC: the diagnostic reached is the one for the '
+            'violated constraint and is reachable; value-quantified constraint checks live in the C04/C05/C06/C14/C15 families.'),
+    'C11': ('model_checking', 'DESIGN.md C11',
+            'Token and scanner locations count physical lines/columns through splices and comments for all byte continuations (scan step + nextchar), error() prints the '
+            'location it is given (symbolic line/col) and exits 1, catalogue violations on a line of their own are reported on that line.'),
+    'C19': ('model_checking', 'DESIGN.md C19',
+            'The functional harnesses re-run with CBMC bounds/pointer/overflow/division/shift checks, source assert()s and unwinding assertions (termination) and with real buffer '
+            'growth: scanner on all first bytes, utf, tree, hash table, layout, data emission, character constants, designator stack.'),
+    'C20': ('model_checking', 'DESIGN.md C20',
+            'Twin runs of the constructors on symbolic arguments with symbolic heap garbage agree on every consumer-visible field; slices of the functional families re-run '
+            '(their proofs quantify over all allocator contents and layouts).'),
     'C01': ('model_checking', 'DESIGN.md C01',
             'Instruction selection per operator: for each (operator, left type, right type) and each conversion the real mkbinaryexpr+funcexpr/convert lower '
             'operands of fully symbolic value; the emitted IL, executed by an IL semantics, equals the C value for every defined input (solver-decided), '
